@@ -185,6 +185,8 @@ class Gateway:
         sensor = self.sensors[sensor_id]
 
         if sensor.is_smart_sleep_node:
+            # Refuse a value now if the command can't be created at wake-up.
+            self.create_message_to_set_sensor_value(sensor, child_id, value_type, value)
             sensor.set_child_desired_state(child_id, value_type, value)
             return
 
